@@ -5,7 +5,7 @@ from . import _containers as K
 
 PROP_FILE = "Properties/C08.v"
 TRUSTED = ["segment-level models of .c2pa/PNG/JPEG/GIF/RIFF handlers and their object-location functions (coq/Model/Cont*.v); "
-           "byte-level decoders are tied by the correspondence run",
+           "dec(enc) proved for PNG and JPEG, GIF/RIFF byte decoders tied by the correspondence run",
            "formats without a model (TIFF, SVG, MP3, FLAC, JPEG XL) are covered by the oracle run on fixtures only: partial; "
            "BMFF and .c2pa handlers report no manifest region at all (get_object_locations_from_stream returns an empty list): "
            "locality is checked against the box/file itself, region clauses are not applicable"]
